@@ -267,6 +267,9 @@ def instance_pool(ctx, cirq, rng):
     pool.append(('gen/circuit-op-symbolic-reps', cirq.CircuitOperation(cirq.FrozenCircuit(cirq.X(qs[0])), repetitions=sympy.Symbol('r'), use_repetition_ids=False)))
     pool.append(('gen/circuit-op-expr-reps', cirq.CircuitOperation(cirq.FrozenCircuit(cirq.X(qs[0])), repetitions=sympy.Symbol('r') * 2 + 1, use_repetition_ids=False)))
     pool.append(('gen/duration-symbolic', cirq.Duration(nanos=sympy.Symbol('t'))))
+    for j_ in range(8):   # states whose normalisation is not a fixed point of dividing by the norm once more
+        v_ = np.array([complex(rng.gauss(0, 1), rng.gauss(0, 1)) for _ in range(rng.choice([2, 4, 8]))])
+        pool.append((f'gen/state-preparation-{j_}', cirq.StatePreparationChannel(v_, name=f'prep{j_}')))
     for j_, dur_ in enumerate([cirq.Duration(nanos=2 * sympy.Symbol('a') * sympy.Symbol('b')), cirq.Duration(micros=sympy.Symbol('a') * sympy.Symbol('b') * sympy.Symbol('c') * 3),
                                cirq.Duration(picos=sympy.Symbol('a') + 1), cirq.Duration(nanos=sympy.Symbol('a') ** 2 * 5), cirq.Duration(millis=sympy.Symbol('a') / 4)]):
         pool.append((f'gen/duration-symbolic-{j_}', dur_))
